@@ -826,3 +826,22 @@ func PathKey(p []Sel) string {
 }
 
 func sortStrings(s []string) []string { sort.Strings(s); return s }
+
+// SameBits reports whether every bit of x and y is known (a constant or a copy of an entry bit) and the same in
+// both: the two values are then equal whatever their terms look like (a shift-and-mask spelling against a
+// multiply-and-add one).
+func SameBits(x, y *Int) bool {
+	if x == nil || y == nil || x.W != y.W {
+		return false
+	}
+	for i := 0; i < x.W; i++ {
+		a, b := x.Bits[i], y.Bits[i]
+		if a.K == BTop || b.K == BTop || a.K != b.K {
+			return false
+		}
+		if a.K == BLit && (a.A.Key != b.A.Key || a.Idx != b.Idx || a.Neg != b.Neg) {
+			return false
+		}
+	}
+	return true
+}
